@@ -3,7 +3,7 @@ CONSTANTS
   Kinds <- KindsAll
   CleanupIds = {"c1", "c2", "c3"}
   DetailNames <- NamesAll
-  Mismatches = {"m0", "m1", "m2"}
+  Mismatches = {"m0", "m1", "m2", "m3"}
   Attrs = {"a_exist", "a_missing", "a_none"}
   Fixtures = {"f_ok", "f_tb", "f_two", "f_bad", "f_cr", "f_gr", "f_nest", "f_nestbad", "f_nestcr", "f_classic"}
   MaxFaults = 4
